@@ -36,7 +36,7 @@ fn adjust(s: &mut TypeSpec, d: &mut Dna) -> bool {
         let keep_payload = d.chance(50);
         let pos = d.pick(n);
         for i in 0..n {
-            let mut v = VariantSpec { name: format!("U{i}"), shape: Shape::Unit, fields: vec![], disc: None, attrs: vec![], split: 0, raw: vec![] };
+            let mut v = VariantSpec { name: format!("U{i}"), shape: Shape::Unit, fields: vec![], disc: None, attrs: vec![], split: 0, raw: vec![], noise: vec![], disc_sp: 0 };
             if keep_payload && i == pos {
                 if let Some(f) = &first {
                     v = f.clone();
@@ -204,7 +204,7 @@ pub fn behaviour() -> Behaviour {
         cfg,
         adjust,
         render,
-        quick: 1000,
+        quick: 2500,
         thorough: 15000,
         batch: 20,
         assumptions: &["layout-dependent behaviour is observed on x86-64 only; the debug build turns misaligned reads into aborts"],
